@@ -37,6 +37,10 @@ func (w *keyedWorld) call(t int, c M) Call {
 		r := M{"rv": 0, "rok": true, "rep": []int{}}
 		g := w.got[t]
 		switch op {
+		case "ClearKey": // only ever planned while nobody holds or awaits the key
+			w.km.ClearKey(k)
+		case "WClearKey":
+			w.rw.ClearKey(k)
 		case "Lock":
 			w.km.LockKey(k)
 			w.occW[k]++
